@@ -13,7 +13,7 @@
    check and repaired in /repo (commits 29e7967, c34737b); the model is the repaired
    behaviour.  The harness keeps eight patterned fields per class, so both regressions
    are caught with concrete inputs. *)
-From DW Require Import PyStr PatModel PatProofs.
+From DW Require Import PyStr PatModel PatProofs PatAmbigProofs PatStd PatStdProofs.
 
 Section C17.
 Variable iso : kind -> pstr -> option stamp.
@@ -200,4 +200,300 @@ Example C17_premises_hold :
   load0 ex_iso ex_strp KDateTime None (S "%d/%m/%Y %H.%M") (S "2022-01-03T15:45:00") = Loaded (mkv KDateTime None ex_v) /\
   load0 ex_iso ex_strp KDate None (S "%d/%m/%Y %H.%M") (S "junk") = ParseErr [S "%d/%m/%Y %H.%M"] /\
   load0 ex_iso ex_strp KTime (Some (S "MyTime")) (S "%H-%M") (S "zzz") = ParseErr [S "%H-%M"].
+Proof. repeat split. Qed.
+
+(* ==== the AMBIGUOUS region (strengthening round, seeded change C17-8) ==================================
+   A declared pattern may ALSO parse a string that is valid ISO-8601 for the target type, with another
+   meaning: '%Y-%d-%m' reads '2021-03-04' as 3 April, '%S:%M:%H' reads '05:10:12' as 12:10:05; several
+   declared patterns may parse one string differently.  `pmatches strp p s` = "p also matches s",
+   `first_match strp ps s` = the first listed pattern that matches (with strptime's answer),
+   `ambig0` / `ambig1` = "s is valid ISO AND a declared pattern reads it as a different value".
+   C17_iso_precedence / _v1 above never excluded this region (no premise on the patterns outside the
+   exception); the statements below say so explicitly, delimit the exception exactly as the source does
+   (`dash_time k p` = time target and '-' or '+' in the pattern; v1: in ANY pattern of the list) and
+   cover dump/load for values loaded through any declared pattern. *)
+Section C17_ambiguous.
+Variable iso : kind -> pstr -> option stamp.
+Variable strp : pstr -> pstr -> option stamp.
+
+(* the two decision trees in the vocabulary of "matches": complete case analysis *)
+Theorem C17_load_cases :
+  forall k cls p s,
+  load0 iso strp k cls p s =
+  match (if dash_time k p then strp p s else None), iso k (iso_arg k s), strp p s with
+  | Some d, _, _ => Loaded (mkv k cls (conv0 k d))
+  | None, Some d', _ => Loaded (mkv k cls d')
+  | None, None, Some d => Loaded (mkv k cls (conv0 k d))
+  | None, None, None => ParseErr [p]
+  end.
+Proof. exact (load0_cases iso strp). Qed.
+
+Theorem C17_load_cases_v1 :
+  forall k cls tzo ps s,
+  load1 iso strp k cls tzo ps s =
+  match (if dash_time1 k ps then first_match strp ps s else None), iso k s, first_match strp ps s with
+  | Some (_, d), _, _ => Loaded (mkv k cls (conv1 k tzo d))
+  | None, Some d', _ => Loaded (mkv k cls (set_tz_opt tzo d'))
+  | None, None, Some (_, d) => Loaded (mkv k cls (conv1 k tzo d))
+  | None, None, None => ParseErr ps
+  end.
+Proof. exact (load1_cases iso strp). Qed.
+
+(* a string that is valid ISO loads as ISO whatever the declared patterns make of it *)
+Theorem C17_iso_wins :
+  forall k cls p s d', iso k (iso_arg k s) = Some d' -> dash_time k p = false ->
+  load0 iso strp k cls p s = Loaded (mkv k cls d').
+Proof. exact (iso_wins0 iso strp). Qed.
+
+Theorem C17_iso_wins_v1 :
+  forall k cls tzo ps s d', iso k s = Some d' -> dash_time1 k ps = false ->
+  load1 iso strp k cls tzo ps s = Loaded (mkv k cls (set_tz_opt tzo d')).
+Proof. exact (iso_wins1 iso strp). Qed.
+
+(* date and datetime targets are never in the exception *)
+Theorem C17_no_exception_date_datetime :
+  forall k, k <> KTime -> (forall p, dash_time k p = false) /\ (forall ps, dash_time1 k ps = false).
+Proof. exact no_exception_date_datetime. Qed.
+
+(* on an ambiguous string the result IS the ISO reading and IS NOT the pattern's reading *)
+Theorem C17_ambiguous_is_iso :
+  forall k cls p s, ambig0 iso strp k p s = true -> dash_time k p = false ->
+  exists d d', iso k (iso_arg k s) = Some d' /\ strp p s = Some d /\
+               load0 iso strp k cls p s = Loaded (mkv k cls d') /\
+               load0 iso strp k cls p s <> Loaded (mkv k cls (conv0 k d)).
+Proof. exact (ambig0_iso iso strp). Qed.
+
+Theorem C17_ambiguous_is_iso_v1 :
+  forall k cls tzo ps s, ambig1 iso strp k tzo ps s = true -> dash_time1 k ps = false ->
+  exists p d d', iso k s = Some d' /\ first_match strp ps s = Some (p, d) /\
+                 load1 iso strp k cls tzo ps s = Loaded (mkv k cls (set_tz_opt tzo d')) /\
+                 load1 iso strp k cls tzo ps s <> Loaded (mkv k cls (conv1 k tzo d)).
+Proof. exact (ambig1_iso iso strp). Qed.
+
+(* the exception is EXACT: the pattern reading displaces a different ISO reading iff dash_time *)
+Theorem C17_exception_exact :
+  forall k cls p s d d',
+  iso k (iso_arg k s) = Some d' -> strp p s = Some d -> conv0 k d <> d' ->
+  (load0 iso strp k cls p s = Loaded (mkv k cls (conv0 k d)) <-> dash_time k p = true) /\
+  (load0 iso strp k cls p s = Loaded (mkv k cls d') <-> dash_time k p = false).
+Proof. exact (exception_exact0 iso strp). Qed.
+
+Theorem C17_exception_exact_v1 :
+  forall k cls tzo ps s p d d',
+  iso k s = Some d' -> first_match strp ps s = Some (p, d) -> conv1 k tzo d <> set_tz_opt tzo d' ->
+  (load1 iso strp k cls tzo ps s = Loaded (mkv k cls (conv1 k tzo d)) <-> dash_time1 k ps = true) /\
+  (load1 iso strp k cls tzo ps s = Loaded (mkv k cls (set_tz_opt tzo d')) <-> dash_time1 k ps = false).
+Proof. exact (exception_exact1 iso strp). Qed.
+
+(* among the patterns: the first listed one that matches wins, whatever the later ones read *)
+Theorem C17_first_match_spec :
+  forall ps s p d,
+  first_match strp ps s = Some (p, d) <->
+  exists ps1 ps2, ps = ps1 ++ p :: ps2 /\ (forall q, In q ps1 -> strp q s = None) /\ strp p s = Some d.
+Proof. exact (first_match_split strp). Qed.
+
+Theorem C17_first_listed_wins_v1 :
+  forall k cls tzo ps s p d,
+  first_match strp ps s = Some (p, d) -> iso k s = None \/ dash_time1 k ps = true ->
+  load1 iso strp k cls tzo ps s = Loaded (mkv k cls (conv1 k tzo d)).
+Proof. exact (first_listed_wins1 iso strp). Qed.
+
+(* dump / load for a value loaded through ANY declared pattern: outside the exception nothing is asked
+   of the patterns (every one of them may parse the dump with another meaning) *)
+Theorem C17_dump_load_any :
+  forall k cls p s s' v,
+  load0 iso strp k cls p s = Loaded v -> iso k (iso_arg k s') = Some (v_st v) -> dash_time k p = false ->
+  load0 iso strp k cls p s' = Loaded v.
+Proof. exact (dump_load0_any iso strp). Qed.
+
+Theorem C17_dump_load_any_v1 :
+  forall k cls tzo ps s s' v d',
+  load1 iso strp k cls tzo ps s = Loaded v -> iso k s' = Some d' -> set_tz_opt tzo d' = v_st v ->
+  dash_time1 k ps = false ->
+  load1 iso strp k cls tzo ps s' = Loaded v.
+Proof. exact (dump_load1_any iso strp). Qed.
+
+(* inside the exception it is enough that the first pattern matching the dump reads the same value
+   (weaker premise than C17_dump_load / _v1 above) *)
+Theorem C17_dump_load_strong :
+  forall k cls p s s' v,
+  load0 iso strp k cls p s = Loaded v -> iso k (iso_arg k s') = Some (v_st v) ->
+  (dash_time k p = true -> forall d, strp p s' = Some d -> conv0 k d = v_st v) ->
+  load0 iso strp k cls p s' = Loaded v.
+Proof. exact (dump_load0_strong iso strp). Qed.
+
+Theorem C17_dump_load_strong_v1 :
+  forall k cls tzo ps s s' v d',
+  load1 iso strp k cls tzo ps s = Loaded v -> iso k s' = Some d' -> set_tz_opt tzo d' = v_st v ->
+  (dash_time1 k ps = true -> forall p d, first_match strp ps s' = Some (p, d) -> conv1 k tzo d = v_st v) ->
+  load1 iso strp k cls tzo ps s' = Loaded v.
+Proof. exact (dump_load1_strong iso strp). Qed.
+
+(* stdlib law: strptime matches the pattern's literal characters literally.  Under it the default
+   engine's exception never reaches a dump without '-' / '+' (every dump of a naive value): dump/load
+   holds for ALL patterns, ambiguous or not, exception or not. *)
+Theorem C17_dump_load_plain :
+  forall k cls p s s' v,
+  literal_law strp -> has_dash_plus s' = false ->
+  load0 iso strp k cls p s = Loaded v -> iso k (iso_arg k s') = Some (v_st v) ->
+  load0 iso strp k cls p s' = Loaded v.
+Proof. exact (dump_load0_plain iso strp). Qed.
+
+(* v1: the same on the region where the exception only reaches patterns that themselves contain
+   '-' / '+' (`sibling_free`); outside it /repo violates the property: C17_dump_load_v1_refuted *)
+Theorem C17_dump_load_plain_v1_partial :
+  forall k cls tzo ps s s' v d',
+  literal_law strp -> has_dash_plus s' = false -> sibling_free k ps = true ->
+  load1 iso strp k cls tzo ps s = Loaded v -> iso k s' = Some d' -> set_tz_opt tzo d' = v_st v ->
+  load1 iso strp k cls tzo ps s' = Loaded v.
+Proof. exact (dump_load1_plain_partial iso strp). Qed.
+
+Theorem C17_iso_plain_v1_partial :
+  forall k cls tzo ps s d',
+  literal_law strp -> has_dash_plus s = false -> sibling_free k ps = true -> iso k s = Some d' ->
+  load1 iso strp k cls tzo ps s = Loaded (mkv k cls (set_tz_opt tzo d')).
+Proof. exact (iso_wins1_plain_partial iso strp). Qed.
+
+End C17_ambiguous.
+
+Print Assumptions C17_load_cases.
+Print Assumptions C17_load_cases_v1.
+Print Assumptions C17_iso_wins.
+Print Assumptions C17_iso_wins_v1.
+Print Assumptions C17_no_exception_date_datetime.
+Print Assumptions C17_ambiguous_is_iso.
+Print Assumptions C17_ambiguous_is_iso_v1.
+Print Assumptions C17_exception_exact.
+Print Assumptions C17_exception_exact_v1.
+Print Assumptions C17_first_match_spec.
+Print Assumptions C17_first_listed_wins_v1.
+Print Assumptions C17_dump_load_any.
+Print Assumptions C17_dump_load_any_v1.
+Print Assumptions C17_dump_load_strong.
+Print Assumptions C17_dump_load_strong_v1.
+Print Assumptions C17_dump_load_plain.
+Print Assumptions C17_dump_load_plain_v1_partial.
+Print Assumptions C17_iso_plain_v1_partial.
+
+(* ---- a concrete instance of the oracles: the fixed-width slice of the stdlib (PatStd.v) -------------
+   strp_fix / iso_fix / isofmt: %Y %m %d %H %M %S + literals on zero-padded strings, ISO extended forms;
+   compared with the real strptime / fromisoformat by the harness on every run.  The slice satisfies
+   the literal law. *)
+Theorem C17_slice_literal_law : literal_law strp_fix.
+Proof. exact strp_fix_literal_law. Qed.
+Print Assumptions C17_slice_literal_law.
+
+(* strptime inverts strftime on the slice (any layout, any in-range value) *)
+Theorem C17_slice_roundtrip :
+  forall ts v, in_range ts v -> NoDup (flds ts) -> strp_toks ts (fmt_toks ts v) = finish (restrict ts v).
+Proof. exact strp_toks_fmt. Qed.
+Print Assumptions C17_slice_roundtrip.
+
+(* THE AMBIGUOUS FAMILY: for every target kind, every width-preserving injective renaming sg of the
+   fields of its ISO layout (day<->month, any permutation of hour/minute/second, both ...) and all
+   numbers w: the pattern `fam_p` (the ISO layout with renamed fields, e.g. '%Y-%d-%m') parses the ISO
+   rendering of the value v = w o sg as the value w - and both engines nevertheless load v. *)
+Theorem C17_ambiguous_family :
+  forall k sg w,
+  (forall f, width (sg f) = width f) -> NoDup (map sg (flds (iso_toks k))) -> in_range (rename sg (lit_toks k)) w ->
+  valid_stamp (fam_iso_reading k sg w) = true -> valid_stamp (fam_pat_reading k sg w) = true ->
+  strp_fix (fam_p k sg) (fam_s k sg w) = Some (fam_pat_reading k sg w) /\
+  iso_fix k (fam_s k sg w) = Some (kval k (fam_iso_reading k sg w)) /\
+  (conv0 k (fam_pat_reading k sg w) <> kval k (fam_iso_reading k sg w) ->
+   ambig0 iso_fix strp_fix k (fam_p k sg) (fam_s k sg w) = true) /\
+  (forall cls, load0 iso_fix strp_fix k cls (fam_p k sg) (fam_s k sg w) = Loaded (mkv k cls (kval k (fam_iso_reading k sg w)))) /\
+  (forall cls tzo ps1 ps2, dash_time1 k (ps1 ++ fam_p k sg :: ps2) = false ->
+     load1 iso_fix strp_fix k cls tzo (ps1 ++ fam_p k sg :: ps2) (fam_s k sg w)
+     = Loaded (mkv k cls (set_tz_opt tzo (kval k (fam_iso_reading k sg w))))).
+Proof. exact ambiguous_family. Qed.
+Print Assumptions C17_ambiguous_family.
+
+(* in plain words, ALL dates: '%Y-%d-%m' reads the ISO string of y-m-d as y-d-m whenever that date
+   exists (so for every day <= 12), and the ISO string still loads as y-m-d - alone or in a list *)
+Theorem C17_ambiguous_dates :
+  forall y m d,
+  valid_stamp (dstamp y m d 0 0 0) = true -> valid_stamp (dstamp y d m 0 0 0) = true ->
+  let s := isofmt KDate (fv y m d 0 0 0) in
+  strp_fix (S "%Y-%d-%m") s = Some (dstamp y d m 0 0 0) /\
+  iso_fix KDate s = Some (dstamp y m d 0 0 0) /\
+  (m <> d -> ambig0 iso_fix strp_fix KDate (S "%Y-%d-%m") s = true) /\
+  (forall cls, load0 iso_fix strp_fix KDate cls (S "%Y-%d-%m") s = Loaded (mkv KDate cls (dstamp y m d 0 0 0))) /\
+  (forall cls ps1 ps2,
+     load1 iso_fix strp_fix KDate cls None (ps1 ++ S "%Y-%d-%m" :: ps2) s = Loaded (mkv KDate cls (dstamp y m d 0 0 0))).
+Proof. exact ambiguous_dates. Qed.
+Print Assumptions C17_ambiguous_dates.
+
+(* ALL times: '%S:%M:%H' reads the ISO string of h:mi:s as s:mi:h whenever s <= 23 *)
+Theorem C17_ambiguous_times :
+  forall h mi s,
+  valid_stamp (dstamp 1900 1 1 h mi s) = true -> valid_stamp (dstamp 1900 1 1 s mi h) = true ->
+  let x := isofmt KTime (fv 0 0 0 h mi s) in
+  strp_fix (S "%S:%M:%H") x = Some (dstamp 1900 1 1 s mi h) /\
+  iso_fix KTime x = Some (dstamp 0 0 0 h mi s) /\
+  (h <> s -> ambig0 iso_fix strp_fix KTime (S "%S:%M:%H") x = true) /\
+  (forall cls, load0 iso_fix strp_fix KTime cls (S "%S:%M:%H") x = Loaded (mkv KTime cls (dstamp 0 0 0 h mi s))) /\
+  (forall cls tzo ps1 ps2, dash_time1 KTime (ps1 ++ S "%S:%M:%H" :: ps2) = false ->
+     load1 iso_fix strp_fix KTime cls tzo (ps1 ++ S "%S:%M:%H" :: ps2) x
+     = Loaded (mkv KTime cls (set_tz_opt tzo (dstamp 0 0 0 h mi s)))).
+Proof. exact ambiguous_times. Qed.
+Print Assumptions C17_ambiguous_times.
+
+(* non-vacuity: concrete members of the family (computed) *)
+Example C17_ambiguous_examples :
+  (* date: day <-> month *)
+  fam_p KDate sg_dm = S "%Y-%d-%m" /\ fam_s KDate sg_dm (fv 2021 4 3 0 0 0) = S "2021-03-04" /\
+  strp_fix (S "%Y-%d-%m") (S "2021-03-04") = Some (dstamp 2021 4 3 0 0 0) /\
+  ambig0 iso_fix strp_fix KDate (S "%Y-%d-%m") (S "2021-03-04") = true /\
+  load0 iso_fix strp_fix KDate None (S "%Y-%d-%m") (S "2021-03-04") = Loaded (mkv KDate None (dstamp 2021 3 4 0 0 0)) /\
+  load1 iso_fix strp_fix KDate None None [S "%Y-%d-%m"; S "%d.%m.%Y"] (S "2021-03-04") = Loaded (mkv KDate None (dstamp 2021 3 4 0 0 0)) /\
+  (* a value that came in through the SECOND pattern dumps to an ISO string the FIRST pattern also parses *)
+  load1 iso_fix strp_fix KDate None None [S "%Y-%d-%m"; S "%d.%m.%Y"] (S "04.03.2021") = Loaded (mkv KDate None (dstamp 2021 3 4 0 0 0)) /\
+  ambig1 iso_fix strp_fix KDate None [S "%Y-%d-%m"; S "%d.%m.%Y"] (S "2021-03-04") = true /\
+  (* the pattern's own strings that are not ISO are read by the pattern *)
+  load0 iso_fix strp_fix KDate None (S "%Y-%d-%m") (S "2021-25-03") = Loaded (mkv KDate None (dstamp 2021 3 25 0 0 0)) /\
+  (* time: seconds first *)
+  fam_p KTime sg_hs = S "%S:%M:%H" /\
+  ambig0 iso_fix strp_fix KTime (S "%S:%M:%H") (S "05:10:12") = true /\
+  load0 iso_fix strp_fix KTime (Some (S "MyTime")) (S "%S:%M:%H") (S "05:10:12") = Loaded (mkv KTime (Some (S "MyTime")) (dstamp 0 0 0 5 10 12)) /\
+  load1 iso_fix strp_fix KTime None (Some (TzZone (S "UTC"))) [S "%S:%M:%H"] (S "05:10:12")
+    = Loaded (mkv KTime None (set_tz (TzZone (S "UTC")) (dstamp 0 0 0 5 10 12))) /\
+  load0 iso_fix strp_fix KTime None (S "%S:%M:%H") (S "30:10:05") = Loaded (mkv KTime None (dstamp 0 0 0 5 10 30)) /\
+  (* datetime: both *)
+  fam_p KDateTime sg_both = S "%Y-%d-%mT%S:%M:%H" /\
+  ambig1 iso_fix strp_fix KDateTime (Some (TzZone (S "UTC"))) [S "%Y-%d-%mT%S:%M:%H"] (S "2021-03-04T05:10:12") = true /\
+  load1 iso_fix strp_fix KDateTime None (Some (TzZone (S "UTC"))) [S "%Y-%d-%mT%S:%M:%H"] (S "2021-03-04T05:10:12")
+    = Loaded (mkv KDateTime None (set_tz (TzZone (S "UTC")) (dstamp 2021 3 4 5 10 12))).
+Proof. vm_compute. repeat split. Qed.
+
+(* ---- /repo violates the property where the v1 exception is LIST-WIDE (finding F90) --------------------
+   `TimePattern['%S:%M:%H', '%H-%M']` (v1): the second pattern contains '-', so the FIRST one is tried
+   before fromisoformat as well: the ISO string '05:10:12' loads as 12:10:05, and a value does not
+   survive its own dump.  Witness with the slice as oracle (it satisfies the literal law, and the dump
+   contains no '-' / '+'); replayed against the implementation on every run (KNOWN-FINDING). *)
+Definition f90_ps : list pstr := [S "%S:%M:%H"; S "%H-%M"].
+
+Theorem C17_dump_load_v1_refuted :
+  exists k cls tzo ps s s' v d',
+  literal_law strp_fix /\ has_dash_plus s' = false /\
+  load1 iso_fix strp_fix k cls tzo ps s = Loaded v /\ iso_fix k s' = Some d' /\ set_tz_opt tzo d' = v_st v /\
+  load1 iso_fix strp_fix k cls tzo ps s' <> Loaded v.
+Proof.
+  exists KTime, None, None, f90_ps, (S "12:10:05"), (S "05:10:12"), (mkv KTime None (dstamp 0 0 0 5 10 12)), (dstamp 0 0 0 5 10 12).
+  split; [exact strp_fix_literal_law|]. vm_compute. repeat split; discriminate.
+Qed.
+Print Assumptions C17_dump_load_v1_refuted.
+
+Theorem C17_iso_v1_refuted :
+  exists k cls tzo ps v,
+  literal_law strp_fix /\ has_dash_plus (isofmt k v) = false /\
+  iso_fix k (isofmt k v) = Some (dstamp 0 0 0 5 10 12) /\
+  load1 iso_fix strp_fix k cls tzo ps (isofmt k v) <> Loaded (mkv k cls (set_tz_opt tzo (dstamp 0 0 0 5 10 12))).
+Proof.
+  exists KTime, None, None, f90_ps, (fv 0 0 0 5 10 12).
+  split; [exact strp_fix_literal_law|]. vm_compute. repeat split; discriminate.
+Qed.
+Print Assumptions C17_iso_v1_refuted.
+
+Example C17_f90_region : sibling_free KTime f90_ps = false /\ sibling_free KTime [S "%H-%M"] = true /\
+                         sibling_free KTime [S "%S:%M:%H"] = true /\ sibling_free KDate f90_ps = true.
 Proof. repeat split. Qed.
